@@ -145,7 +145,9 @@ fn allowed(cx: &Ctx, label: &str, pos: Pos, shell: &str) -> Result<(), String> {
             cx.idx.at.get(&pos).map(|v| v.iter().any(|(m, _)| m.kind == MarkKind::RhsStart && matches!(&cx.printed.marks.iter().find(|x| x.stmt == m.stmt && matches!(x.kind, MarkKind::DefLhs { .. })).map(|x| x.kind.clone()), Some(MarkKind::DefLhs { name, .. }) if names.contains(name)))).unwrap_or(false)
         }
         "Adjacent literals in expression used in a subword context" => cx.idx.find(pos, &|k| matches!(k, MarkKind::Lit(t) if t == "sp1")).is_some(),
-        "Referenced in a subword context at" => cx.idx.find(pos, &|k| matches!(k, MarkKind::NtRef(_))).is_some(),
+        // the trace of references that lead from the call variant to the offending definition: only the
+        // planted chain (SPC*) and the definitions the mistake was attached behind (Q*) are on that path
+        "Referenced in a subword context at" => cx.idx.find(pos, &|k| matches!(k, MarkKind::NtRef(n) if n.starts_with("SPC") || (n.starts_with('Q') && n[1..].chars().all(|c| c.is_ascii_digit())))).is_some(),
         "Ambiguous grammar" => cx.idx.find(pos, &|k| matches!(k, MarkKind::NtRef(_))).is_some(),
         "" => match class {
             Some(Class::SubwordSpaces) => cx.idx.find(pos, &|k| matches!(k, MarkKind::Lit(t) if t == "sp2")).is_some(),
